@@ -74,10 +74,6 @@ Qed.
 Lemma oidx_nth : forall l j, j < length l -> oidx l j = Some (nth j l []).
 Proof. intros l j H. unfold oidx. apply nth_error_nth'. exact H. Qed.
 
-(** Reference decision procedure for the wildcard rule, by index. *)
-Definition comp_mismatch (P W : list bytes) (j : nat) : bool :=
-  negb (bytes_eqb (nth j W []) []) && negb (bytes_eqb (nth j W []) (nth j P [])).
-
 Lemma comp_mismatch_false : forall P W j,
     comp_mismatch P W j = false <-> comp_matches (nth j P []) (nth j W []).
 Proof.
